@@ -583,37 +583,60 @@ func (n *Node) ServeToPeer(root, addr boson.Address) ([]byte, error) {
 }
 
 // raceCI is the chunkinfo.Interface handed to the localstore during a scripted collection run: it
-// passes everything on to the real ChunkInfo; its FIRST DelFile call (the first candidate of the first
-// run) first runs the hook if it is for the trigger root; later calls are passed on unchanged.  At that point collectGarbage has selected its candidates and is about to evict this one —
-// it has entered DelFile but the deletion callback (which takes batchMu and re-checks the dirty
-// addresses) has not run yet — so whatever the hook does is an access racing with the eviction of
-// exactly this candidate.
+// passes everything on to the real ChunkInfo and watches the DelFile calls of the FIRST run: if they are
+// for exactly the roots in expect, in that order, the hook runs inside the last of these calls, before it
+// is forwarded.  With one root that is the first DelFile call of the collection: collectGarbage has
+// selected its candidates and is about to evict this one — it has entered DelFile but the deletion
+// callback (which takes batchMu and re-checks the dirty addresses) has not run yet — so whatever the hook
+// does is an access racing with the eviction of exactly this candidate.  With two roots the hook runs in
+// the window of the second candidate, i.e. AFTER the callback of the first one has decided that file's
+// deletions and BEFORE the run commits its batch.
 type raceCI struct {
 	chunkinfo.Interface
-	trigger boson.Address
-	hook    func()
-	calls   int
-	fired   bool
+	expect []boson.Address
+	hook   func()
+	seen   int
+	armed  bool
+	fired  bool
 }
 
 func (r *raceCI) DelFile(root boson.Address, del func() error) error {
-	r.calls++
-	if r.calls == 1 && root.Equal(r.trigger) {
-		r.fired = true
-		r.hook()
+	if r.armed {
+		if r.seen < len(r.expect) && root.Equal(r.expect[r.seen]) {
+			r.seen++
+			if r.seen == len(r.expect) {
+				r.armed, r.fired = false, true
+				r.hook()
+			}
+		} else {
+			r.armed = false
+		}
 	}
 	return r.Interface.DelFile(root, del)
 }
 
-// CollectGarbageRace is CollectGarbage with a scripted racing access: if the first DelFile call of the
-// collection is for trigger, hook is executed (on the collecting goroutine, no lock held) before the call
-// is forwarded.  fired tells whether that happened.
-func (n *Node) CollectGarbageRace(capacity uint64, trigger boson.Address, hook func()) (runs int, collected uint64, fired bool, err error) {
-	w := &raceCI{Interface: n.CI, trigger: trigger, hook: hook}
+// CollectGarbageRace is CollectGarbage with a scripted racing access: if the first len(expect) DelFile
+// calls of the first run are for expect, hook is executed (on the collecting goroutine, no lock held)
+// inside the last of them before it is forwarded.  fired tells whether that happened.
+func (n *Node) CollectGarbageRace(capacity uint64, expect []boson.Address, hook func()) (runs int, collected uint64, fired bool, err error) {
+	w := &raceCI{Interface: n.CI, expect: expect, hook: hook, armed: len(expect) > 0}
 	n.DB.SetChunkInfo(w)
 	defer n.DB.SetChunkInfo(n.CI)
-	runs, collected, err = n.CollectGarbage(capacity)
-	return runs, collected, w.fired, err
+	n.DB.VerifSetCapacity(capacity)
+	for runs < 8 {
+		c, done, e := n.DB.VerifCollectGarbage()
+		w.armed = false // only the first run is scripted
+		runs++
+		collected += c
+		if e != nil {
+			return runs, collected, w.fired, e
+		}
+		if done {
+			break
+		}
+	}
+	n.DB.VerifTakeGCTrigger()
+	return runs, collected, w.fired, nil
 }
 
 // CollectGarbage sets the capacity and runs collection synchronously until a run reports done
